@@ -11,6 +11,7 @@ import (
 	"bytes"
 	"compress/gzip"
 	"fmt"
+	"hash/adler32"
 	"io"
 	"math/rand"
 	"os"
@@ -231,11 +232,7 @@ func gen(r *rand.Rand, i int) desc {
 // ---- running the real code --------------------------------------------------------------------
 
 func hashBytes(b []byte) uint64 {
-	var acc uint64
-	for _, x := range b {
-		acc = (acc*257 + uint64(x) + 1) % 1000000007
-	}
-	return acc
+	return uint64(adler32.Checksum(b))
 }
 
 func bodyRep(b []byte) string {
